@@ -113,14 +113,15 @@ func c09Alphabet(cfg c09Cfg) []c09Op {
 	addT := []int{c09TTemp, c09TConn}
 	setT := []int{c09TZero, c09TTemp, c09TRC, c09TConn}
 	type pr struct{ o, n int }
-	upd := []pr{{c09TConn, c09TRC}, {c09TConn, c09TTemp}, {c09TTemp, c09TZero}, {c09TTemp, c09TConn}, {c09TRC, c09TConn}, {c09TRC, c09TTemp}}
+	// (old == new is a refresh: the class keeps its name, every address in it gets a new expiry)
+	upd := []pr{{c09TConn, c09TRC}, {c09TConn, c09TTemp}, {c09TTemp, c09TZero}, {c09TTemp, c09TConn}, {c09TRC, c09TConn}, {c09TRC, c09TTemp}, {c09TTemp, c09TTemp}}
 	recSets := []int{0, 2}
 	recT := []int{c09TTemp, c09TConn}
 	adv := []int{1, 2}          // 2 m, 15 m
 	if cfg.alphabet == "mini" { // for the deepest 2-peer searches
 		sets = []int{0, 5}
 		setT = []int{c09TZero, c09TTemp, c09TConn}
-		upd = []pr{{c09TConn, c09TTemp}, {c09TTemp, c09TZero}, {c09TTemp, c09TConn}}
+		upd = []pr{{c09TConn, c09TTemp}, {c09TTemp, c09TZero}, {c09TTemp, c09TConn}, {c09TTemp, c09TTemp}}
 		recT = []int{c09TTemp}
 	}
 	if full {
